@@ -39,7 +39,7 @@ Inductive obs :=
 Inductive pkind :=
 | PAfter (evtype : string)                                 (* delivers AfterEvent(type) *)
 | PSvc (iid : string) (ok : bool) (val : Z) (handled : bool)   (* delivers done.invoke / error.platform; unhandled error fails the machine *)
-| PSvcStart (iid : string) (dur : nat) (ok : bool) (val : Z) (handled : bool).  (* async: the service task has been created but not run yet *)
+| PSvcStart (iid : string) (dur : nat) (ok : bool) (val : Z) (handled : bool) (mach : bool).  (* async: the service task has been created but not run yet *)
 Record pend := { p_owner : nat; p_due : nat; p_seq : nat; p_kind : pkind }.
 
 Record st := {
@@ -128,19 +128,28 @@ Definition deliver (eng : engine) (p : pend) (s : st) : st :=
   | PSvc iid ok val handled =>
       let s1 := send_self eng (svc_event iid ok) s in
       if ok || handled then s1 else fail_machine s1
-  | PSvcStart iid dur ok val handled =>
+  | PSvcStart iid dur ok val handled _ =>
       arm (p_owner p) (p_due p + dur) (PSvc iid ok val handled) (logo (OSvc iid) s)
   end.
 
+(* order of what is pending: by due time, then creation order - except that, among service tasks created at one instant,
+   child machines start before callable services (these take one more event-loop step before they call the service) *)
+Definition is_mach_start (p : pend) : bool := match p_kind p with PSvcStart _ _ _ _ _ b => b | _ => false end.
+Definition is_fun_start (p : pend) : bool := match p_kind p with PSvcStart _ _ _ _ _ b => negb b | _ => false end.
+Definition pend_before (q p : pend) : bool :=
+  Nat.ltb (p_due q) (p_due p)
+  || (Nat.eqb (p_due q) (p_due p) &&
+      (if is_mach_start q && is_fun_start p then true
+       else if is_fun_start q && is_mach_start p then false
+       else Nat.ltb (p_seq q) (p_seq p))).
 Fixpoint ins_pend (p : pend) (l : list pend) : list pend :=
   match l with
   | [] => [p]
-  | q :: r => if Nat.ltb (p_due q) (p_due p) || (Nat.eqb (p_due q) (p_due p) && Nat.ltb (p_seq q) (p_seq p))
-              then q :: ins_pend p r else p :: l
+  | q :: r => if pend_before q p then q :: ins_pend p r else p :: l
   end.
 Definition sort_pend (l : list pend) : list pend := fold_right ins_pend [] l.
 
-Definition is_start (p : pend) : bool := match p_kind p with PSvcStart _ _ _ _ _ => true | _ => false end.
+Definition is_start (p : pend) : bool := match p_kind p with PSvcStart _ _ _ _ _ _ => true | _ => false end.
 
 (* the interpreter is busy until `target` (a slow action): everything that falls due meanwhile is delivered
    (queued) in due order, nothing is processed.  Fuel: a delivery creates at most one new item. *)
@@ -279,6 +288,17 @@ Definition resolve_history (m : machine) (H : list (nat * list nat)) (h : nat) :
     end
   end.
 
+(* _compute_states_to_exit with a history target: the regions of a parallel domain that are exited are those
+   holding the states the history pseudo-state resolves to (the states that will be entered) *)
+Definition exit_set_h (m : machine) (C : config) (H : list (nat * list nat)) (d tgt : nat) : list nat :=
+  if is_history m tgt then
+    let cands := filter (fun s => is_desc m s d && negb (Nat.eqb s d)) C in
+    if is_parallel m d then
+      let bs := flat_map (fun x => match branch_of m d x with Some b => [b] | None => [] end) (resolve_history m H tgt) in
+      filter (fun s => existsb (fun b => is_desc m s b) bs) cands
+    else cands
+  else exit_set m C d tgt.
+
 (* ---------------- done-ness ---------------- *)
 
 Fixpoint is_done (fuel : nat) (m : machine) (C : config) (s : nat) : bool :=
@@ -336,7 +356,7 @@ Definition start_service (eng : engine) (x : nat) (i : invoke) : M :=
   if Nat.eqb (i_src i) 0 then raise EImplMissing
   else match eng with
        | Async => lift (fun s => arm x (s_now s)
-                                   (PSvcStart (i_id i) (i_dur i) (i_ok i) (i_val i) (match i_onerror i with [] => false | _ => true end)) s)
+                                   (PSvcStart (i_id i) (i_dur i) (i_ok i) (i_val i) (match i_onerror i with [] => false | _ => true end) (i_machine i)) s)
        | _ => lift (logo (OSvc (i_id i))) ;;
               lift (fun s => deliver eng {| p_owner := x; p_due := s_now s; p_seq := 0;
                                              p_kind := PSvc (i_id i) (i_ok i) (i_val i)
@@ -448,7 +468,7 @@ Definition exec_external (eng : engine) (pr : bool) (m : machine) (t : trans) (t
   fun s0 =>
     let snapshot := s_cfg s0 in
     let d := find_domain m (t_src t) tgt in
-    let xs := exit_set m snapshot d tgt in
+    let xs := exit_set_h m snapshot (s_hist s0) d tgt in
     let hist := is_history m tgt in
     let hts := if hist then resolve_history m (s_hist s0) tgt else [] in
     let path := if hist then [] else path_to m tgt d in
